@@ -3,24 +3,25 @@
 Prints one line per check: property, exit code, VIOLATION lines (first 2), wall seconds."""
 import subprocess, sys, time, os
 patch = os.path.abspath(sys.argv[1]); props = sys.argv[2:]
+REPO = os.environ.get("REPO_ROOT", "/repo"); VERIF = os.environ.get("VERIF_ROOT", "/verif")  # a private copy may be used (tools/mk_workspace.sh)
 def sh(cmd, **kw):
     return subprocess.run(cmd, shell=True, capture_output=True, text=True, **kw)
-st = sh("git -C /repo status --porcelain --untracked-files=no").stdout.strip()
+st = sh("git -C %s status --porcelain --untracked-files=no" % REPO).stdout.strip()
 if st:
     print("refusing: /repo has local changes:\n" + st); sys.exit(2)
-r = sh("git -C /repo apply --whitespace=nowarn %s" % patch)
+r = sh("git -C %s apply --whitespace=nowarn %s" % (REPO, patch))
 if r.returncode != 0:
     print("patch does not apply:", r.stderr[:500]); sys.exit(2)
 results = []
 try:
     for p in props:
         t = time.time()
-        r = sh("cd /verif && ./check %s --tier %s" % (p, os.environ.get('TIER', 'quick')))
+        r = sh("cd %s && ./check %s --tier %s" % (VERIF, p, os.environ.get('TIER', 'quick')))
         lines = [l for l in r.stdout.splitlines() if l.startswith(("VIOLATION", "OK ", "ERROR", "KNOWN-FINDING"))]
         viol = [l for l in lines if l.startswith("VIOLATION")]
         print("%s rc=%d wall=%.0fs %s" % (p, r.returncode, time.time() - t, "; ".join(l[:160] for l in (viol[:2] or lines[-1:]))), flush=True)
         results.append((p, r.returncode))
 finally:
-    sh("git -C /repo checkout -- .")
+    sh("git -C %s checkout -- ." % REPO)
     # restore evidence written under the mutated tree is fine (gitignored? no) -> leave; caller re-runs checks before commit
 sys.exit(0 if all(rc == 1 for _, rc in results) else 1)
